@@ -682,7 +682,7 @@ impl Property for C10 {
     }
 
     fn rule() -> &'static str {
-        "one evaluation = one seeded scenario executed on twin sandboxes A and B (identical trees incl. an 'outside' area and links to files and directories inside and outside the starting points, dangling links, fifos): pass 1 `find ROOTS -depth EXPR -print0` on A defines the expected set and order (and is itself compared with an independent reference post-order), pass 2 `find ROOTS EXPR -print0 -delete -printf MARK` runs on A, and a reference executor applies the statement's rule (lstat: real directory -> rmdir, anything else -> unlink) to B path by path; EXPR only uses tests that deletions cannot change (-name/-iname/-path/-type/-perm/-true/-false, depth bounds, ! -a -o ( )); faults: ENOTEMPTY (matched directory with unmatched children), EACCES (parent 0555 under a dropped uid), ENOENT and ENOTEMPTY produced by a scripted racing process acting between the marker and the action; oracle: same entries in the same order, -delete true exactly where the reference removal succeeded, full snapshots of A and B equal (inside and outside the starting points), exit status non-zero iff a removal failed with one diagnostic each; also ( -delete ... -o -quit ) and names that are not valid UTF-8; diagnostics are counted, not matched; distinct = distinct abstract trace; non-trivial = a failing removal or mutation fired, or a shape probe hit"
+        "one evaluation = one seeded scenario executed on twin sandboxes A and B (identical trees incl. an 'outside' area and links to files and directories inside and outside the starting points, dangling links, fifos): pass 1 `find ROOTS -depth EXPR -print0` on A defines the expected set and order (and is itself compared with an independent reference post-order), pass 2 `find ROOTS EXPR -print0 -delete -printf MARK` runs on A, and a reference executor applies the statement's rule (lstat: real directory -> rmdir, anything else -> unlink) to B path by path; EXPR only uses tests that deletions cannot change (-name/-iname/-path/-type/-perm/-true/-false, depth bounds, ! -a -o ( )); faults: ENOTEMPTY (matched directory with unmatched children), EACCES (parent 0555 under a dropped uid), ENOENT and ENOTEMPTY produced by a scripted racing process acting between the marker and the action; oracle: same entries in the same order, -delete true exactly where the reference removal succeeded, full snapshots of A and B equal (inside and outside the starting points), exit status non-zero iff a removal failed with one diagnostic each; also ( -delete ... -o -quit ) and names that are not valid UTF-8; diagnostics are counted, not matched; in 1/12 of the runs find's working directory is the first starting point itself, reached as ../t (the reference removals then run from the same directory with the same relative names), in 1/12 (under -P) a starting point is spelled DIR/..; the process environment is a dimension too (variables nobody should listen to such as POSIXLY_CORRECT, TZ with daylight saving, LC_ALL, in a sixth of the runs; descriptor 1 a terminal in a tenth); distinct = distinct abstract trace; non-trivial = a failing removal or mutation fired, or a shape probe hit"
     }
 
     fn components() -> Value {
